@@ -1,6 +1,7 @@
 from __future__ import annotations
 
 import functools
+import itertools
 import os
 import uuid
 import warnings
@@ -1110,13 +1111,17 @@ class _HLGExprSequence(Expr):
             return None
         from dask.highlevelgraph import HighLevelGraph
 
-        groups = toolz.groupby(
-            lambda x: x.low_level_optimizer if isinstance(x, HLGExpr) else None,
+        # Only neighbours are merged: the position of an operand in the sequence
+        # determines the position of its results (``__dask_keys__``), so operands
+        # must not be moved past operands that use another optimizer.
+        groups = itertools.groupby(
             self.operands,
+            lambda x: x.low_level_optimizer if isinstance(x, HLGExpr) else None,
         )
         exprs = []
         changed = False
-        for optimizer, group in groups.items():
+        for optimizer, run in groups:
+            group = list(run)
             if len(group) > 1:
                 graphs = [expr.hlg for expr in group]
 
